@@ -7,7 +7,7 @@ EXTENDS Integers, Sequences, FiniteSets, TLC, TLCExt, Json, IOUtils, Exact
 
 Tr == JsonDeserialize(IOEnv.TRACE_FILE)
 
-CONSTANTS Judge,
+CONSTANTS Judge, Dev_C13_ReentryLeak,
           Dev_C12_InputMomentum, Dev_C12_ScaleOne, Dev_C10_GroupSizeLost, Dev_C10_LayerNormTarget, Dev_C10_ScaleDtype,
           Dev_C09_DeepCopyQBits, Dev_C08_ScaleDtype, Dev_C05_CopyPlain, Dev_C07_F16Float8Act, Dev_C08_LayerNormNoAffine, Dev_C07_IntMMK1
 
@@ -15,7 +15,7 @@ VARIABLES tid, l, dev,
           open,      \* number of calibration contexts currently open
           base,      \* globals at Init (registries / mode stack before the history)
           upd,       \* per module index: <<number of input-scale updates, number of output-scale updates>>
-          qargs      \* [ms |-> stack of the momenta of the open contexts]
+          qargs      \* [ms |-> stack of the momenta of the open contexts, re |-> number of open re-entries of an already open object]
 
 Ev == Tr[tid][l]
 Is(a) == l <= Len(Tr[tid]) /\ Ev.act = a
@@ -219,7 +219,7 @@ ScaleOneSig(e) ==
 
 (* ======================== bookkeeping =========================================================================== *)
 OpenAfter(e) ==
-  CASE e.act = "EnterCalib" /\ e.outcome = "ok" -> open + 1
+  CASE e.act \in {"EnterCalib", "ReEnterCalib"} /\ e.outcome = "ok" -> open + 1
     [] e.act = "ExitCalib" /\ e.outcome = "ok" -> open - 1
     [] e.act = "RaiseIn" -> 0
     [] OTHER -> open
@@ -257,9 +257,11 @@ DevSig(d, e) ==
     [] d \in {"Dev_C10_GroupSizeLost", "Dev_C10_LayerNormTarget", "Dev_C10_ScaleDtype"} -> Judge = "C10" /\ C10DevSig(d, e)
     [] d = "Dev_C08_ScaleDtype" -> Judge \in {"C08", "C11"} /\ e.act = "Forward" /\ e.outcome = "ok"
                                    /\ \A k \in 1..Len(e.recipes) : RecipeOK(e.recipes[k]) \/ RecipeDtypeDev(e.recipes[k])
-    [] d = "Dev_C07_IntMMK1" ->
-         /\ e.act = "Forward" /\ e.outcome = "ok"
-         /\ \A k \in 1..Len(e.recipes) : RecipeOK(e.recipes[k]) \/ (e.recipes[k].kind = "Linear" /\ e.recipes[k].K = 1 /\ e.recipes[k].wq = "qint8" /\ e.recipes[k].aq = "qint8" /\ e.recipes[k].shape_ok)
+    [] d = "Dev_C13_ReentryLeak" ->
+         \* an object that was entered twice is being left, and hooks outlive it (mode stack and purity clauses still hold)
+         /\ Judge = "C13" /\ e.act \in {"ExitCalib", "RaiseIn"} /\ qargs.re > 0
+         /\ e.globals.modes = base.modes + open' /\ e.globals.pre_hooks > base.pre_hooks + open' /\ e.globals.post_hooks = e.globals.pre_hooks
+         /\ (e.act = "RaiseIn") => e.raised = TRUE
     [] d = "Dev_C07_IntMMK1" ->
          /\ e.act = "Forward" /\ e.outcome = "ok"
          /\ \A k \in 1..Len(e.recipes) : RecipeOK(e.recipes[k]) \/ (e.recipes[k].kind = "Linear" /\ e.recipes[k].K = 1 /\ e.recipes[k].wq = "qint8" /\ e.recipes[k].aq = "qint8" /\ e.recipes[k].shape_ok)
@@ -270,9 +272,10 @@ DevSig(d, e) ==
                                   /\ e.outcome \in {"AttributeError", "AssertionError"}
                                   /\ \E i \in 1..Len(e.mods) : e.mods[i].kind = "Conv2d" /\ e.mods[i].hyper.padding_mode = "circular" /\ e.mods[i].aq # "none"
     [] OTHER -> FALSE
-DevOn == {d \in {"Dev_C07_IntMMK1", "Dev_C08_LayerNormNoAffine", "Dev_C07_F16Float8Act", "Dev_C12_InputMomentum", "Dev_C12_ScaleOne", "Dev_C10_GroupSizeLost", "Dev_C10_LayerNormTarget", "Dev_C10_ScaleDtype",
+DevOn == {d \in {"Dev_C13_ReentryLeak", "Dev_C07_IntMMK1", "Dev_C08_LayerNormNoAffine", "Dev_C07_F16Float8Act", "Dev_C12_InputMomentum", "Dev_C12_ScaleOne", "Dev_C10_GroupSizeLost", "Dev_C10_LayerNormTarget", "Dev_C10_ScaleDtype",
                  "Dev_C09_DeepCopyQBits", "Dev_C08_ScaleDtype", "Dev_C05_CopyPlain"} :
             CASE d = "Dev_C12_InputMomentum" -> Dev_C12_InputMomentum [] d = "Dev_C12_ScaleOne" -> Dev_C12_ScaleOne
+              [] d = "Dev_C13_ReentryLeak" -> Dev_C13_ReentryLeak
               [] d = "Dev_C07_F16Float8Act" -> Dev_C07_F16Float8Act
               [] d = "Dev_C07_IntMMK1" -> Dev_C07_IntMMK1
               [] d = "Dev_C08_LayerNormNoAffine" -> Dev_C08_LayerNormNoAffine
@@ -281,7 +284,7 @@ DevOn == {d \in {"Dev_C07_IntMMK1", "Dev_C08_LayerNormNoAffine", "Dev_C07_F16Flo
               [] d = "Dev_C08_ScaleDtype" -> Dev_C08_ScaleDtype [] d = "Dev_C05_CopyPlain" -> Dev_C05_CopyPlain}
 
 TInit == /\ tid \in 1..Len(Tr) /\ l = 1 /\ dev = {} /\ open = 0
-         /\ base = [pre_hooks |-> 0, post_hooks |-> 0, modes |-> 0] /\ upd = <<>> /\ qargs = [ms |-> <<>>]
+         /\ base = [pre_hooks |-> 0, post_hooks |-> 0, modes |-> 0] /\ upd = <<>> /\ qargs = [ms |-> <<>>, re |-> 0]
 
 TStart == /\ Is("Init") /\ l' = l + 1
           /\ base' = Ev.globals /\ upd' = [i \in 1..Len(Ev.mods) |-> <<0, 0>>]
@@ -293,9 +296,12 @@ TCrash == /\ Is("Crash") /\ FALSE /\ UNCHANGED <<tid, l, dev, open, base, upd, q
 TStep ==
   /\ l <= Len(Tr[tid]) /\ Ev.act \notin {"Init", "Crash", "Grad"}
   /\ open' = OpenAfter(Ev)
-  /\ qargs' = CASE Ev.act = "EnterCalib" /\ Ev.outcome = "ok" -> [ms |-> Append(qargs.ms, Ev.args.momentum)]
-                 [] Ev.act = "ExitCalib" /\ Ev.outcome = "ok" /\ qargs.ms # <<>> -> [ms |-> SubSeq(qargs.ms, 1, Len(qargs.ms) - 1)]
-                 [] Ev.act = "RaiseIn" -> [ms |-> <<>>]
+  /\ qargs' = CASE Ev.act = "EnterCalib" /\ Ev.outcome = "ok" -> [qargs EXCEPT !.ms = Append(@, Ev.args.momentum)]
+                 [] Ev.act = "ReEnterCalib" /\ Ev.outcome = "ok" /\ qargs.ms # <<>> -> [ms |-> Append(qargs.ms, qargs.ms[Len(qargs.ms)]), re |-> qargs.re + 1]
+                 [] Ev.act = "ExitCalib" /\ Ev.outcome = "ok" /\ qargs.ms # <<>> ->
+                      \* (re-entries sit on top of the entry they repeat: they are left first)
+                      [ms |-> SubSeq(qargs.ms, 1, Len(qargs.ms) - 1), re |-> IF Len(qargs.ms) = 1 THEN 0 ELSE qargs.re]
+                 [] Ev.act = "RaiseIn" -> [ms |-> <<>>, re |-> 0]
                  [] OTHER -> qargs
   /\ \/ (JudgeOK(Ev) = TRUE /\ dev' = dev)
      \/ \E d \in DevOn : ((~JudgeOK(Ev) /\ DevSig(d, Ev)) = TRUE /\ dev' = dev \cup {d})
